@@ -34,7 +34,8 @@ NoValues == {}
 
 RoutesAll == {"object", "factory", "method"}
 RoutesOne == {"object"}
-RoutesSix == {"object", "factory", "method", "callback2", "callback3", "callbackv"}
+RoutesSix == {"object", "factory", "method", "callback2", "callback3", "callbackv", "factory_fn", "factory_class", "factory_method",
+              "factory_partial", "factory_callable"}
 ValuesRoutes == {"None", "s3", "abc"}
 KindsRoutes == {"Foreign", "TypeError", "TypeErrorOnce", "KeyboardInterrupt", "LibraryTagged"}
 ExitsNo == {FALSE}
